@@ -81,15 +81,28 @@ Theorem C46_declined_noop :
 Proof. exact declined_noop. Qed.
 Print Assumptions C46_declined_noop.
 
-(* an unversioned directory with a control directory at its top is kept with everything below it *)
-Theorem C46_nested_branch_guarded :
-  forall fl o ign t vs p cs q,
+(* NESTED BRANCHES (after the repairs 07ac4fc, edd5827, b06b6de).
+   The control directory of EVERY branch in the working directory -- the tree's own, a nested one at
+   any depth, of any registered format, in bzr and git trees -- survives with all it holds.  This is the
+   former `_guarded`/`_refuted` pair, now unguarded. *)
+Theorem C46_nested_branch_safe :
+  forall fl o ign t vs a cs c q,
+    lookup a t = Some (Dir cs) -> has_control cs = true ->
+    is_control_name c = true -> is_prefix (a ++ [c]) q = true ->
+    kind_at q (clean fl o ign t vs) = kind_at q t.
+Proof. exact control_dirs_safe. Qed.
+Print Assumptions C46_nested_branch_safe.
+
+(* an unversioned item that holds a branch root anywhere at or below it is kept with everything it
+   contains (the nested branch's working files included) *)
+Theorem C46_nested_branch_tree_kept :
+  forall fl o ign t vs p s cs q,
     wf_node t = true ->
-    In p (extras fl t vs) -> lookup p t = Some (Dir cs) -> has_control cs = true ->
+    In p (extras fl t vs) -> lookup (p ++ s) t = Some (Dir cs) -> has_control cs = true ->
     is_prefix p q = true ->
     kind_at q (clean fl o ign t vs) = kind_at q t.
-Proof. exact nested_top_kept. Qed.
-Print Assumptions C46_nested_branch_guarded.
+Proof. exact nested_tree_kept. Qed.
+Print Assumptions C46_nested_branch_tree_kept.
 
 (* git trees never delete anything at or below a directory holding a ".git" entry, at any depth *)
 Theorem C46_git_nested_git_safe :
@@ -101,17 +114,15 @@ Theorem C46_git_nested_git_safe :
 Proof. exact git_nested_git_safe. Qed.
 Print Assumptions C46_git_nested_git_safe.
 
-(* control directories of OTHER version control systems (finding C46-foreign-control-dir, repaired
-   in /repo by b06b6de: iter_deletables skips every extra whose basename is a control filename of any
-   registered format).  Nothing whose basename is .bzr or .git is ever deletable, bzr and git trees: *)
+(* nothing with a control filename (.bzr, .git) among its path components is ever deletable *)
 Theorem C46_foreign_control_dirs_safe :
-  forall fl o ign t vs p,
-    In p (deletables fl o ign t vs) -> is_control_name (last_name p) = false.
+  forall fl o ign t vs p c,
+    In p (deletables fl o ign t vs) -> In c p -> is_control_name c = false.
 Proof. exact control_names_never_deletable. Qed.
 Print Assumptions C46_foreign_control_dirs_safe.
 
-(* ... hence, in a bzr tree, an unversioned .git/.bzr entry directly inside the root or a versioned
-   directory survives with everything below it *)
+(* ... hence, in a bzr tree, an unversioned .git/.bzr entry (valid control directory or not) directly
+   inside the root or a versioned directory survives with everything below it *)
 Theorem C46_foreign_control_dirs_kept :
   forall o ign t vs d c q,
     wf_node t = true -> parent_closed vs ->
@@ -122,8 +133,7 @@ Theorem C46_foreign_control_dirs_kept :
 Proof. exact foreign_control_safe_bzr. Qed.
 Print Assumptions C46_foreign_control_dirs_kept.
 
-(* the former witness (root with .bzr, .git/HEAD and a versioned f): .git is still an extra, and
-   `--unknown` now leaves the tree as it is *)
+(* the three former witnesses are regression examples now *)
 Example C46_foreign_control_witness_now_safe :
   wf_node coloc_tree = true /\ parent_closed coloc_vs /\
   In [n_git] (extras Bzr coloc_tree coloc_vs) /\
@@ -132,26 +142,31 @@ Proof.
   destruct coloc_now_safe as (H1 & H2 & H3). repeat split; auto. exact coloc_parent_closed.
 Qed.
 
-(* "never a nested branch" is still FALSE: two machine-checked witnesses (both replayed on the real code) *)
-(* 1. bzr tree, branch at depth 2 below an unknown directory: u/n/.bzr is deleted with `--unknown` *)
-Theorem C46_nested_branch_deep_refuted :
-  exists t vs u n,
-    wf_node t = true /\ parent_closed vs /\
-    (exists cs, lookup [u; n] t = Some (Dir cs) /\ has_control cs = true) /\
-    kind_at [u; n; n_bzr] (clean Bzr only_unknown [] t vs) = None.
-Proof.
-  exists deep_tree, [], [117]%N, [110]%N. destruct deep_refuted as (H1 & H2 & H3).
-  repeat split; auto. intros a b H. discriminate.
-Qed.
-Print Assumptions C46_nested_branch_deep_refuted.
+Example C46_deep_nested_witness_now_safe :
+  wf_node deep_tree = true /\
+  (exists cs, lookup [[117]; [110]]%N deep_tree = Some (Dir cs) /\ has_control cs = true) /\
+  In [[117]]%N (extras Bzr deep_tree []) /\
+  clean Bzr only_unknown [] deep_tree [] = deep_tree.
+Proof. exact deep_now_safe. Qed.
 
-(* 2. git tree with a nested bzr branch at depth 1: its control files are deleted one by one *)
-Theorem C46_git_nested_bzr_refuted :
-  exists t n,
-    wf_node t = true /\
-    (exists cs, lookup [n] t = Some (Dir cs) /\ has_control cs = true) /\
-    kind_at [n; n_bzr; n_branch_format] (clean Git only_unknown [] t []) = None.
+(* RESIDUE: "never a nested branch" read as "nor the working files of a nested branch" is still FALSE
+   when the branch root is not (inside) an unversioned item of a bzr tree:
+   1. git tree with a nested bzr branch n: n/.bzr stays, the unknown file n/w is deleted;
+   2. bzr tree whose versioned directory v is the root of a git repository: v/.git stays, v/k is deleted. *)
+Theorem C46_nested_branch_working_files_refuted :
+  (exists t n w,
+     wf_node t = true /\
+     (exists cs, lookup [n] t = Some (Dir cs) /\ has_control cs = true) /\
+     kind_at [n; n_bzr; n_branch_format] (clean Git only_unknown [] t []) = Some KFile /\
+     kind_at [n; w] (clean Git only_unknown [] t []) = None) /\
+  (exists t vs v k,
+     wf_node t = true /\
+     (exists cs, lookup [v] t = Some (Dir cs) /\ has_control cs = true) /\
+     kind_at [v; n_git] (clean Bzr only_unknown [] t vs) = Some KDir /\
+     kind_at [v; k] (clean Bzr only_unknown [] t vs) = None).
 Proof.
-  exists gitbzr_tree, [110]%N. exact git_nested_bzr_refuted.
+  split.
+  - exists gitbzr_tree, [110]%N, [119]%N. exact git_nested_bzr_now.
+  - exists bzrgit_tree, bzrgit_vs, [118]%N, [107]%N. exact bzr_versioned_git_root_now.
 Qed.
-Print Assumptions C46_git_nested_bzr_refuted.
+Print Assumptions C46_nested_branch_working_files_refuted.
